@@ -492,6 +492,43 @@ pub fn run(ctx: &Ctx, rep: &Report) -> Meta {
     if !rep.aborted() {
         rep.exhaustive(format!("every input length 0..={} x byte classes x 2 suites for each octet decoder", maxlen));
     }
+    // (1b) every interface-identifier length 0..=300 into every public function that takes one (the tags built from
+    // it are limited to 255 octets; an identifier that makes one too long must come back as an error)
+    {
+        let lens: Vec<(usize, usize)> = (0..=300usize).flat_map(|l| [(0usize, l), (1usize, l)]).collect();
+        par_items(ctx, rep, "api-id-every-length", &lens, |&(s, len)| {
+            let ck = "api-id-every-length";
+            let h = &hs[s];
+            with_suite!(h.suite, CS => {
+                for (cls, id) in [("ascii", BSpec { len, class: 3, seed: len as u32 }.bytes()), ("zeros", vec![0u8; len]), ("ff", vec![0xffu8; len])] {
+                    let inp = || json!({"suite": h.suite.name(), "api_id_len": len, "class": cls});
+                    let units = len / 16 + 8;
+                    let id2 = id.clone();
+                    let gens = match call(rep, ck, "Generators::create(api_id)", units, inp, || {
+                        let _ = Generators::create::<CS>(3, Some(&id2));
+                        true
+                    }) {
+                        Ok(_) => catch(|| Generators::create::<CS>(3, Some(&id))).ok(),
+                        Err(f) => return Err(f),
+                    };
+                    call(rep, ck, "messages_to_scalar(api_id)", units, inp, || BBSplusMessage::messages_to_scalar::<CS>(&h.msgs, &id).is_ok())?;
+                    call(rep, ck, "map_message_to_scalar_as_hash(api_id)", units, inp, || BBSplusMessage::map_message_to_scalar_as_hash::<CS>(&h.msgs[0], &id).is_ok())?;
+                    call(rep, ck, "prepare_parameters(api_id)", units, inp, || zkryptium::bbsplus::blind::prepare_parameters::<CS>(Some(&h.msgs), Some(&h.cm), 5, 3, None, Some(&id)).is_ok())?;
+                    if let Some(g) = &gens {
+                        call(rep, ck, "deserialize_and_validate_commit(api_id)", units, inp, || Commitment::<BBSplus<CS>>::deserialize_and_validate_commit(Some(&h.commitment), g, Some(&id)).is_ok())?;
+                        call(rep, ck, "calculate_blind_challenge(api_id)", units, inp, || {
+                            zkryptium::utils::util::bbsplus_utils::calculate_blind_challenge::<CS>(g.values[0], g.values[1], &g.values, Some(&id)).is_ok()
+                        })?;
+                    }
+                    call(rep, ck, "hash_to_scalar(dst)", units, inp, || zkryptium::utils::util::bbsplus_utils::hash_to_scalar::<CS>(b"msg", &id).is_ok())?;
+                }
+                Ok(())
+            })
+        });
+        if !rep.aborted() {
+            rep.exhaustive("every interface-identifier length 0..=300 x {ascii, zeros, 0xff} x 2 suites into every public function that takes an api_id / dst".into());
+        }
+    }
     // (2) arbitrary index lists and counts
     run_cases(ctx, rep, "index-lists-and-counts", ctx.tier.pick(6000, 60000), 400, call_strat, |c| {
         let h = &hs[if c.suite == SuiteId::Sha256 { 0 } else { 1 }];
@@ -509,7 +546,7 @@ pub fn run(ctx: &Ctx, rep: &Report) -> Meta {
     }
     Meta {
         rule: "(1) every length 0..=1024 x byte classes {zeros, 0xff, 0xc0-prefixed, 0xc0 every 48, random, honest proof/commitment/pk/signature/blind proof cut or padded (zero and random padding)} into every octet decoder, \
-               deserialize_and_validate_commit, blind_sign, proof_gen, blind_proof_gen; decoded objects handed on to the verifiers; (2) honest artefacts with generated index lists / counts over the whole usize range \
+               deserialize_and_validate_commit, blind_sign, proof_gen, blind_proof_gen; decoded objects handed on to the verifiers; (1b) every interface-identifier length 0..=300 into Generators::create, messages_to_scalar, map_message_to_scalar_as_hash, prepare_parameters, deserialize_and_validate_commit, calculate_blind_challenge, hash_to_scalar; (2) honest artefacts with generated index lists / counts over the whole usize range \
                (small, 2^32, 2^63, usize::MAX-7..usize::MAX), sorted or not, with duplicates, mismatched lengths, None spellings, into proof_gen, proof_verify, blind_proof_gen, blind_proof_verify (L), update_signature (index, n), verify, verify_blind_sign, sign, commit; \
                (3) mutated honest JSON of every serde type, decoded objects handed on; thorough adds a libFuzzer campaign over a structured target. \
                a cold-start contention phase (all workers calling sign / verify / proof_gen / proof_verify / commit with 3..130 messages at once) and the byte-level entry function of the libFuzzer target run in-process on its seed corpus and on pseudo-random bytes; Oracle: the call returns (Ok or Err) under catch_unwind in a build with overflow checks, within a generator budget of 4*(input units)+16 (hook H1); \
